@@ -437,6 +437,18 @@ class LemmaUnit(Unit):
                     return out
                 work.extend(c.pending)
                 pid = ''.join('T' if d else 'F' for d in c.taken) or '-'
+                # vacuity guard: blatantly contradictory assumptions would make every goal provable
+                try:
+                    import z3 as _z3
+                    sv = _z3.Solver()
+                    sv.set('timeout', 2000)
+                    sv.add(*[f for f in c.facts if _z3.is_bool(f)])
+                    if sv.check() == _z3.unsat:
+                        out['obligations'].append({'name': self.label() + '.vacuity.assumptions_consistent[%s]' % pid, 'status': 'error',
+                                                   'kind': 'engine', 'backend': 'z3', 'seconds': 0,
+                                                   'detail': 'the assumptions of the lemma are contradictory'})
+                except Exception:
+                    pass
                 for ob in c.obligations:
                     if not ob.name.startswith(self.label()):
                         ob.name = '%s.%s' % (self.label(), ob.name)
